@@ -1,6 +1,7 @@
 import PdtVerif.Lemmas.Estimators
 import PdtVerif.Lemmas.EstimatorsCount
 import PdtVerif.Lemmas.EstimatorsParams
+import PdtVerif.Lemmas.EstimatorsIMH
 /-!
 # C19 — estimators are unbiased where promised; relaxed distributions are consistent
 
@@ -634,6 +635,44 @@ theorem C19_imh_drawn (ratio : σ → α) (f : σ → α) (inSupport : σ → Bo
   simp only [imhEstimate, findInitial, hs d0, if_true]
   rw [if_neg (by omega), imh_chain ratio f hr N burnIn d0 draws lus hlu hb hd hl]
 
+/-- **C19_imh_values** (value semantics of the chain, ANY densities / draws / uniforms / start):
+the estimate is the mean of the LIST of recorded values `f b_t` of the kept chain states
+(`imhValues`: `b_t` = `imhChain`, a proposal where it was accepted and the previous state where it
+was not); an error (`none`) exactly when the list is not defined. -/
+theorem C19_imh_values (ratio : σ → α) (f : σ → α) (inSupport : σ → Bool) (N burnIn tries : Nat)
+    (init : Option σ) (draws : List σ) (lus : List (Option α)) (hb : burnIn < N) :
+    imhEstimate ratio f inSupport N burnIn tries init draws lus
+      = (imhValues ratio f inSupport N burnIn tries init draws lus).map
+          (fun vs => vs.sum / ((N - burnIn : Nat) : α)) :=
+  imh_values ratio f inSupport N burnIn tries init draws lus hb
+
+/-- **C19_imh_recorded_prefix**: a recorded value stays what it was — what the first steps
+recorded is a prefix of what is recorded after any further steps. -/
+theorem C19_imh_recorded_prefix (ratio : σ → α) (f : σ → α) (burnIn : Nat) (b0 : σ)
+    (steps more : List (σ × Option α)) (h : burnIn ≤ steps.length) :
+    imhRecorded ratio f burnIn b0 steps <+: imhRecorded ratio f burnIn b0 (steps ++ more) :=
+  imhRecorded_prefix ratio f burnIn b0 steps more h
+
+/-- **C19_imh_chain**: one state per step, each either that step's proposal or the previous
+state; the record has `steps − burn_in` entries. -/
+theorem C19_imh_chain (ratio : σ → α) (f : σ → α) (burnIn : Nat) (b0 : σ)
+    (steps : List (σ × Option α)) :
+    (imhChain ratio b0 (ratio b0) steps).length = steps.length
+    ∧ (imhRecorded ratio f burnIn b0 steps).length = steps.length - burnIn
+    ∧ ∀ (last : σ) (lastR : α) (cur : σ) (lu : Option α),
+        (imhStep ratio last lastR cur lu).1 = cur ∨ (imhStep ratio last lastR cur lu).1 = last := by
+  refine ⟨imhChain_length ratio steps b0 (ratio b0), ?_, fun last lastR cur lu => imhStep_fst ratio last lastR cur lu⟩
+  simp [imhRecorded, imhChain_length]
+
+/-- **C19_imh_recorded_accept_all**: proposal = density and every `u_n < 1` ⇒ the chain IS the list
+of proposals, so the recorded values are `f` of the post-burn-in proposals (with
+`C19_imh_values`: the plain post-burn-in average, `C19_imh_supplied` / `_drawn`). -/
+theorem C19_imh_recorded_accept_all (ratio : σ → α) (f : σ → α) (burnIn : Nat) (b0 : σ)
+    (steps : List (σ × Option α)) (hr : ∀ b, ratio b = 0) (hlu : ∀ s ∈ steps, NegLog s.2) :
+    imhRecorded ratio f burnIn b0 steps = ((steps.map Prod.fst).drop burnIn).map f := by
+  unfold imhRecorded
+  rw [hr b0, imhChain_accept_all ratio hr steps b0 hlu]
+
 end IMH
 
 /-! ## fixed-cardinality sampling -/
@@ -1061,6 +1100,19 @@ example : imhEstimate (fun _ : Nat => (0 : Rat)) (fun i => (i : Rat)) (fun _ => 
     · cases hl; norm_num
     · cases hl
     · cases hl; norm_num
+
+-- ratios differ: after state 2 (log-ratio 2) was accepted, proposal 0 is rejected twice (log u = -1/2, -1 are
+-- not below 0 - 2), so f(state 2) is recorded at both kept steps; the last proposal is accepted (u = 0)
+example : imhValues (fun i : Nat => (i : Rat)) (fun i => (10 * i : Rat)) (fun _ => true) 4 1 5 (some 5)
+    [2, 0, 0, 3] [some (-4), some (-1/2), some (-1), none] = some [20, 20, 30] := by
+  simp [imhValues, imhRecorded, imhChain, imhStep]
+  norm_num
+
+example : imhEstimate (fun i : Nat => (i : Rat)) (fun i => (10 * i : Rat)) (fun _ => true) 4 1 5 (some 5)
+    [2, 0, 0, 3] [some (-4), some (-1/2), some (-1), none] = some (70 / 3) := by
+  rw [C19_imh_values _ _ _ 4 1 5 _ _ _ (by decide)]
+  simp [imhValues, imhRecorded, imhChain, imhStep]
+  norm_num
 
 example : imhEstimate (fun _ : Nat => (0 : Rat)) (fun i => (i : Rat)) (fun _ => true) 2 0 5 (some 9)
     [1, 2] [some (-1/2), none] = some (3/2) := by
